@@ -49,6 +49,48 @@ def check(rep, tier, seed):
         if l in seen and seen[l] != a:
             bad.append((l, f"{seen[l]}  THEN  {a}", "the same call gave two different results in one process"))
         seen[l] = a
+    # the process-wide time zone: DateTime<Local> values from both sides of daylight-saving changes, under a zone that
+    # has them (everything else in this framework runs under TZ=UTC), in two different orders in two processes: a call's
+    # result must not depend on which season an earlier call on the thread happened to see
+    lts = []
+    for y in (1999, 2024, 2031):
+        for (mo, d) in ((1, 15), (3, 30), (4, 2), (7, 15), (10, 24), (10, 28), (12, 31)):
+            for (h, mi) in ((0, 30), (12, 0), (23, 59)):
+                lts.append(f"rt dt_local (0 (0 z{y} n{mo} n{d}) (0 n{h} n{mi} n7 n{rng.randrange(10**9)})) -")
+    order1 = lts + lts
+    rng.shuffle(order1)
+    order2 = sorted(lts, key=lambda l: (int(l.split(" n")[1]) + 6) % 12) + lts[::-1]      # summer first
+    outs = []
+    for k, order in enumerate((order1, order2)):
+        pth = os.path.join(wd, f"tz{k}.cases")
+        C.write_lines(pth, order)
+        outs.append(dict())
+        for l, a in zip(order, C.run_lines(harness, "codec", pth, env={"TZ": "Europe/Budapest"})):
+            if l in outs[k] and outs[k][l] != a:
+                bad.append((l + "  (TZ=Europe/Budapest)", f"{outs[k][l]}  THEN  {a}", "the same call gave two different results in one process"))
+            outs[k][l] = a
+            val = l[len("rt dt_local "):-2]
+            if not a.endswith(f"; ok {val} 0"):
+                bad.append((l + "  (TZ=Europe/Budapest)", a, "a DateTime<Local> does not come back as the local time that was written"))
+    for l in lts:
+        if outs[0][l] != outs[1][l]:
+            bad.append((l + "  (TZ=Europe/Budapest)", f"{outs[0][l]}  /  {outs[1][l]}",
+                        "a call's result depends on the calls made before it in the process"))
+    # ... and the decoded value must be the same INSTANT with the same offset as the value written (the codec stream
+    # prints local date-times only): winter first in one process, summer first in another
+    inst = [f"{y} {mo} {d} {h} {mi} 7" for y in (1999, 2024) for (mo, d) in ((1, 15), (7, 15), (12, 1), (6, 1), (3, 30), (10, 28))
+            for (h, mi) in ((1, 30), (12, 0))]
+    for k, order in enumerate((inst, sorted(inst, key=lambda l: (int(l.split()[1]) + 6) % 12))):
+        pth = os.path.join(wd, f"tzi{k}.cases")
+        C.write_lines(pth, order)
+        for l, a in zip(order, C.run([harness, "localtz", pth], env={"TZ": "Europe/Budapest"}, timeout=120).stdout.splitlines()):
+            if a == "skip":
+                continue
+            o, _, d = a.partition(" ; ")
+            if not a.startswith("ok ") or o[3:] != d:
+                bad.append((f"localtz {l}  (TZ=Europe/Budapest, order {k})", a,
+                            "a DateTime<Local> is decoded to another instant or offset than the one written"))
+    rep.coverage["local_time_zone_history"] = {"calls": len(order1) + len(order2) + 2 * len(inst), "zone": "Europe/Budapest"}
     # reference tracking: "string and reference numbering always restarts with each call" - graph encodes and decodes
     # (harness/src/graph.rs: store_ref_or_object / try_read_ref) issued twice, shuffled, in ONE process, where freed
     # objects' addresses are reused by later calls; every answer must equal the answer of the same call alone
